@@ -38,6 +38,47 @@ CHECKS = {
    technique="Lean 4 proof by reflective differentiation over expression trees regenerated from the source "
              "(symbolic execution) + exact-rational differential evaluation",
    ref="DESIGN.md §4 C16"),
+ "C07": dict(
+   text="Lean model of BasinHopping.run in which the saved Markov-chain minimum is either a value or an alias of "
+        "the walker array (so the pre-repair aliasing is expressible): C07_walker proves, for all run lengths and "
+        "all input sequences and any match relation, that at every perturb entry the walker equals the last "
+        "accepted minimiser output with the energy used in the next acceptance test; restore lemmas for "
+        "reject/fail/bond-change; downhill always accepted (about the regenerated Metropolis kernel); negation "
+        "witnesses for each of the five copy sites. The copy sites, failure test and Metropolis kernel are "
+        "regenerated from the source; the real run is compared step by step under scripted minimiser/step "
+        "taker/draws (all 4^n outcome patterns, all failure subsets) and on real Camelback/Schwefel traces.",
+   note="atomic/molecular systems: equality up to the recentring applied by the similarity is modelled as an input "
+        "('gated'); the real MolecularSimilarity is exercised by one LJ6 predicate only.",
+   technique="Lean 4 proof (loop invariant over all input sequences) + regenerated kernels + scripted-exhaustive and "
+             "trace-driven correspondence",
+   ref="DESIGN.md §4 C07"),
+ "C08": dict(
+   text="C08_archive: the network after a run equals the similarity-gate fold over [initial if converged] ++ "
+        "[every converged, bonds-intact minimiser output] in step order, accepted or not, for any match relation; "
+        "a failed minimisation leaves no trace; stored minima are outputs; every converged output is represented; "
+        "Metropolis rule about the regenerated kernel and, with Mathlib's Lebesgue measure, acceptance probability "
+        "exp(-dE/T) for uphill moves. Correspondence: every subset of failing steps on short runs, long random "
+        "runs, real traces, and a deterministic metropolis grid including u exactly at the Boltzmann factor.",
+   note="np.exp > 0 and np.random.random in [0,1) are oracle contracts; prepare_initial_coordinates tests only "
+        "warnflag (mirrored, reported as an observation).",
+   technique="Lean 4 proof (fold characterisation + measure of the acceptance set) + regenerated kernels + "
+             "fault-pattern-exhaustive correspondence",
+   ref="DESIGN.md §4 C08"),
+ "C11": dict(
+   text="Proved about the model of MolecularSimilarity's logic: optimal_alignment / test_exact_same return one of "
+        "the alignments actually produced (distance, copy and permutation belong together), leave early exactly "
+        "when a consulted candidate is below the criterion and otherwise return the minimum; the group-by-group "
+        "assembly of the permutation is a like-atom bijection with permuted[a] = coords2[perm[a]] and does not "
+        "depend on the (hash-seed dependent) group order; x -> Q x + t with Q orthogonal and a relabelling "
+        "preserve all inter-atomic distances and species for any atom count. Tied to the code by the regenerated "
+        "return/compare/restart structure of optimal_alignment (bridge), by running the real methods with "
+        "scripted candidate sequences and recorded Hungarian answers against the model, and by predicates on "
+        "rotated/translated/permuted copies of random clusters, LJ13 and the test molecules.",
+   note="PARTIAL: that the randomised heuristic over scipy's Kabsch/Hungarian solvers finds the zero-distance "
+        "alignment is sampled, not proved; the two solvers are oracles whose contracts are validated per call.",
+   technique="Lean 4 proof of the selection/assembly/rigidity logic + regenerated decision structure + scripted and "
+             "trace-driven correspondence; solver behaviour as validated oracle contracts",
+   ref="DESIGN.md §4 C11"),
 }
 
 NOT_YET = {}
